@@ -11,7 +11,7 @@ from __future__ import annotations
 import ast
 from typing import Any, Optional
 
-from ..absval import Interp, Obj, Sym, Unknown
+from ..absval import Vec, Interp, Obj, Sym, Unknown
 from ..model import Undecided, norm
 from ..pointwise import DTYPE_NAMES
 from .resultrun import ResultInterp, Tagged
@@ -292,6 +292,9 @@ class ArrInterp(ResultInterp):
     def subscript_hook(self, base, idx, node):
         if isinstance(base, LabelKeys) and isinstance(idx, _FitMask) and idx.keys is base:
             return LabelKeys(base.value, base.casts, fits=idx.dtype)
+        if isinstance(base, LabelKeys) and isinstance(base.value, (list, tuple)) and isinstance(idx, Vec) and len(idx) == len(base.value) and all(isinstance(b, bool) for b in idx):
+            # boolean selection from a label vector (the labels of an array in that array's own dtype)
+            return Vec(x for x, b in zip(base.value, idx) if b)
         if isinstance(base, LabelKeys) and isinstance(base.value, (list, tuple)) and isinstance(idx, int) and not isinstance(idx, bool):
             try:
                 v = base.value[idx]
@@ -497,6 +500,18 @@ class ArrInterp(ResultInterp):
 
     # -- numpy functions ------------------------------------------------------------------
     def external_call(self, name, args, kwargs, node):
+        if name in ("numpy.isin", "numpy.in1d", "numpy.intersect1d", "numpy.setdiff1d", "numpy.union1d", "numpy.setxor1d") and len(args) == 2 and any(isinstance(a, LabelKeys) for a in args) and not any(isinstance(a, AArr) for a in args):
+            # set routines between label VECTORS: a label vector cast to an input array's dtype is taken to be
+            # that array's own labels (every one of them fits), so the cast changes no value
+            def plainv(a):
+                if isinstance(a, LabelKeys) and isinstance(a.value, (list, tuple)) and all(str(c).startswith("dtypeof:") for c in a.casts):
+                    return list(a.value)
+                return a
+            un = [plainv(a) for a in args]
+            if not any(isinstance(a, LabelKeys) for a in un):
+                r_ = self._vec_call(name, un, kwargs, node)
+                if r_ is not NotImplemented:
+                    return r_
         out_arr = kwargs.get("out")
         if name in ("numpy.not_equal", "numpy.greater", "numpy.equal") and len(args) >= 2 and isinstance(args[0], AArr) and not (set(kwargs) - {"out", "casting", "order", "dtype"}):
             k = {"numpy.not_equal": ast.NotEq(), "numpy.greater": ast.Gt(), "numpy.equal": ast.Eq()}[name]
